@@ -210,12 +210,29 @@ pub fn run(rep: &Report) -> serde_json::Value {
         }
     }
     // declared length at the cap and just below with no body: an error (EOF inside the frame), not a short message
-    for declared in [cap - 1, cap] {
+    let mut kinds: Vec<Option<std::io::ErrorKind>> = vec![];
+    for declared in [cap - 2, cap - 1, cap, cap + 1] {
         rep.add("evaluations", 1);
         let mut s = (declared as u32).to_be_bytes().to_vec();
         s.extend_from_slice(&[9; 5]);
         let (frames, err, hung) = read_all(FrameMode::Distribution, &s, vec![Ans::Bytes(9)]);
         if hung || !frames.is_empty() || err.is_none() { rep.violation("truncated frame at the cap returned a message", json!({"declared": declared})); }
+        kinds.push(err);
+    }
+    // only lengths ABOVE the cap are refused: a truncated frame of exactly the cap fails like any truncated frame
+    // (the library distinguishes the two by the error kind; if it ever stops doing so, the full-size frame below decides)
+    if kinds[0] != kinds[3] && (kinds[1] != kinds[0] || kinds[2] != kinds[0]) {
+        rep.violation("a frame of exactly the maximum length is refused (or one just below it is)", json!({"error_kinds_for_cap-2_cap-1_cap_cap+1": format!("{:?}", kinds)}));
+    }
+    if thorough || kinds[0] == kinds[3] {
+        // a complete frame of exactly the cap is read back (256 MiB through the scripted reader)
+        rep.add("evaluations", 1);
+        let mut s = (cap as u32).to_be_bytes().to_vec();
+        s.resize(4 + cap as usize, 0x5a);
+        let (frames, err, hung) = read_all(FrameMode::Distribution, &s, vec![Ans::Bytes(1 << 20)]);
+        if hung || frames.len() != 1 || frames[0].len() != cap as usize || err.is_none() {
+            rep.violation("a complete frame of exactly the maximum length is not read back", json!({"frames": frames.len(), "error": format!("{:?}", err)}));
+        }
     }
     states += st.load(std::sync::atomic::Ordering::Relaxed);
     transitions += tr.load(std::sync::atomic::Ordering::Relaxed);
